@@ -18,6 +18,9 @@ CHECKS = {
  'C06': dict(level='proof', technique=T_PROOF,
    text='Unbounded proofs that the unit-filter kernels (scalar and blocked, both ignore-NaN arms) and the filter_mat loop regions (CSR and BCSR) set exactly the constrained entries (bit-exact copies / unit rows), skip NaN components when asked, and leave every other entry untouched, for all index sets, sizes and sparsity patterns.',
    note='Assumes: filter indices pairwise distinct and in range, valid CSR/BCSR layout (row-of-entry ghost), block sizes {2,3}; code around the cut regions (early-outs, accessors) is trusted. NOT covered: slip-filter normal component values, mean filter, filter chains/sequences, Global::Filter.'),
+ 'C05': dict(level='proof', technique=T_PROOF + '; loop-free lemma harness over the real encoder and decoder',
+   text='Codec slice of the binary persistence path: SwapHelper<2|4|8>::swap reverse the bytes for all 2^16/2^32/2^64 values (involution); xencode/xdecode convert element-wise for all array lengths, both byte-order arms, return count*sizeof(X_) and write only their destination; lemma decode(encode(v)) == v for every value representable in the file type.',
+   note='Instantiations (u32,u64) (i32,i64) (u64,u64) (i64,i64) (u16,u64) fully, (f32,f64) (f64,f64) safety/frame/no-swap arm + round trip (NaN payloads excluded). NOT covered (outside this technique: std::vector<char>/iostream/zlib/if-constexpr code): Container::_serialize/_deserialize, checkpoint size bookkeeping of meta containers, MatrixMarket/exp text modes, BinaryStream, CheckpointControl, DistFileIO.'),
  'C07': dict(level='proof', technique='CBMC code contracts on the convergence-control methods cut from IterativeSolver (loop-free, all double inputs symbolic), cvc5 back end; callee contracts used modularly',
    text='Control slice: for all double defect values (incl. NaN/inf) and all limit settings, is_converged/is_diverged/_analyse_defect/_update_defect/_set_initial_defect(tail)/status_success return exactly the status the configured tolerances, divergence bounds, iteration limits and stagnation settings prescribe for the defect norms they are given, and update iteration/stagnation counters and stored defects consistently.',
    note='Decides status truthfulness GIVEN that _def_cur is the norm the solver computed. NOT covered (outside this technique): that the Krylov recurrences make that norm the true residual, convergence to the reference solution, rhs-unmodified, apply-ignores-start-vector; _set_new_defect (vector norm call), plotting/statistics lines are dropped from the cuts.'),
@@ -34,4 +37,14 @@ NOT_APPLICABLE = {
  'C15': 'Finite-element basis identities are calculus over the reals on Tiny::Vector/Matrix member templates; CBMC has no differentiation and the identities hold only up to rounding.',
  'C16': 'Assembly exactness goes through the C15 evaluators and cubature objects; the one C-like piece (ScatterAxpy) needs the symbolic pattern relation to SymbolicAssembler adjactors.',
  'C18': 'Grid-transfer exactness/adjointness inverts local mass matrices with floating-point pivoting inside C15/C16 machinery; numerical identities up to rounding on objects that cannot be extracted.',
+}
+
+PLANNED = {
+ 'C02': 'CSR transpose region, dense transpose kernel, DenseMatrix::transpose shape logic (DESIGN §5 C02)',
+ 'C08': 'SOR/SSOR sweep regions (DESIGN §5 C08)',
+ 'C09': 'multigrid cycle control (DESIGN §5 C09)',
+ 'C10': 'orientation codes and per-cell refinement tables (DESIGN §5 C10)',
+ 'C17': 'thread-layer distribution (DESIGN §5 C17)',
+ 'C19': 'permutation / colouring / graph transpose (DESIGN §5 C19)',
+ 'C20': 'MemoryPool reference-count core (DESIGN §5 C20)',
 }
